@@ -46,6 +46,7 @@ def sessions_for(family, cases):
             ops = []
             for p in cases[i:i + 6]:
                 ops.append({"e": "Main", "p": p})
+                ops.append({"e": "Main", "p": p, "again": True})      # re-run in the same directory
                 ops.append({"e": "Check", "p": p})
             ss.append({"fam": family, "ops": ops})
     elif family == "hist":
